@@ -271,6 +271,8 @@ def run(rec, tier, seed):
     rec.exhaustive.append(f"all strings of length<={N} over the 14 structural symbols (well-formed ones checked)")
     n = 700 if quick else 25000
     campaign.parallel(rec, _shard_hyp, [(seed * 1000 + i, n) for i in range(ns)])
+    if not quick:
+        campaign.atheris_tier(rec, "C02", 20000, seed, procs=8, max_len=256)
 
 
 def replay(case):
@@ -289,3 +291,30 @@ def replay(case):
         r = check_text(text[:-j], settings=SETTINGS[:2])
         return (r[0] + ":truncated", r[1]) if r else None
     return check_text(text, _settings_for(ast))
+
+
+def fuzz_targets():
+    found = []
+
+    def t(p):
+        text, k = progs.render_seq(p)
+        r = check_text(text, _settings_for(p))
+        if r:
+            found.append((r[0], {"ast": p, "drop": 0}, r[1]))
+
+    fz = campaign.hyp_fuzz_target(t, {"p": progs.program_strategy(4, hot=True)})
+
+    def target(data):
+        del found[:]
+        fz(data)
+        return list(found)
+
+    def alphabet14(data):
+        toks = tuple(ALPHA[b % len(ALPHA)] for b in data[:10])
+        if _recognise(toks) != WELL:
+            return []
+        text = "".join(toks)
+        r = check_text(text, settings=SETTINGS[:1])
+        return [(r[0], {"text14": text}, r[1])] if r else []
+
+    return {"generated-ast": target, "alphabet14-len<=10": alphabet14}
